@@ -5,6 +5,9 @@ import (
 	"fmt"
 	"math/rand"
 	"strings"
+	"sync"
+
+	"verif/internal/mon"
 )
 
 // nthString returns the idx-th string of length n over alphabet (base-k digits, most significant first).
@@ -80,4 +83,42 @@ func tierSecs(q, t int) func(string) int {
 		}
 		return q
 	}
+}
+
+// ---- retained results ---------------------------------------------------------
+// A string (or byte slice) poly returned must keep its value whatever poly is asked to do later
+// (a result that aliases pooled or reused memory reads differently after a later call). The last
+// few results per key are kept together with a private copy and re-compared on every later call.
+
+type retainedResult struct {
+	orig, copy, what string
+}
+
+var (
+	retainMu   sync.Mutex
+	retainRing = map[string][]retainedResult{}
+)
+
+// retainCheck re-inspects the retained results of key and then retains s.
+func retainCheck(w *mon.W, id, key, s, what string) {
+	retainMu.Lock()
+	defer retainMu.Unlock()
+	ring := retainRing[key]
+	for i, r := range ring {
+		if r.orig != r.copy {
+			w.Violation(id, fmt.Sprintf("the string returned by an earlier call (%s) changed after later calls: it read %q and now reads %q", r.what, clip(r.copy, 150), clip(r.orig, 150)), nil)
+			ring[i].copy = string(append([]byte(nil), r.orig...))
+		}
+	}
+	if len(ring) > 0 {
+		w.Add("earlier_results_reinspected", int64(len(ring)))
+	}
+	if len(s) == 0 || len(s) > 1<<20 {
+		return
+	}
+	ring = append(ring, retainedResult{orig: s, copy: string(append([]byte(nil), s...)), what: clip(what, 160)})
+	if len(ring) > 4 {
+		ring = ring[1:]
+	}
+	retainRing[key] = ring
 }
